@@ -117,10 +117,10 @@ func solveOne(u *Unit, ob *Obligation, cfg *SolverCfg, idx int) {
 	for range cfg.Solvers {
 		r := <-ch
 		results = append(results, r)
-		if !decided && (r.res == "unsat" || r.res == "sat") {
+		if !decided && (r.res == "unsat" || r.res == "sat" || (ob.Kind == "vacuity" && r.res == "unknown")) {
 			final = r
 			decided = true
-			if !cfg.All {
+			if !cfg.All || ob.Kind == "vacuity" {
 				cancel()
 			}
 		} else if !decided && r.res != "timeout" && final.res == "timeout" {
